@@ -10,7 +10,7 @@
    the solvers' backward error and float rounding of the assembly are outside the proof. *)
 From Coq Require Import ZArith List Bool Lia String.
 From PB Require Import lib.SumZ lib.PySlice lib.Arr lib.Loop lib.LoopProofs C11.DtD C11.Table gen.GenBands
-                       C11.Banded C11.History C06.Model C06.Proofs C06.Model2D C06.Proofs2D C06.Vec gen.GenC06Vec C06.VecProofs C06.Order gen.GenC06Order C06.OrderProofs gen.GenC06EigShare C06.EigShare.
+                       C11.Banded C11.History C06.Model C06.Proofs C06.Model2D C06.Proofs2D C06.Vec gen.GenC06Vec C06.VecProofs C06.Order gen.GenC06Order C06.OrderProofs gen.GenC06EigShare C06.EigShare C06.Homog C06.Smooth0.
 Import ListNotations.
 Open Scope Z_scope.
 
@@ -284,6 +284,33 @@ Print Assumptions C06_2d_eigen_share_refuted.
 Theorem C06_2d_eigen_share_pinned : echeck = true.
 Proof. exact eigshare_checked. Qed.
 Print Assumptions C06_2d_eigen_share_pinned.
+
+(* utils.whittaker_smooth with diff_order = 0 (accepted by the code; D_0 = I), the case excluded above: every N >= 1 *)
+Theorem C06_whittaker_smooth_d0_system : forall (hp : bool) (N : nat) (lam : Z) (w y : Z -> Z),
+  (0 < N)%nat -> 0 < lam ->
+  exists k, whittaker_smooth hp N lam 0 w y = Some k /\ sys_ok N (doc_asls N 0 lam w) (mulv w y) k.
+Proof. exact whittaker_smooth_d0_system. Qed.
+Print Assumptions C06_whittaker_smooth_d0_system.
+
+(* ---------------- homogeneity (C06/Homog.v): the exact-input correspondence rescales dyadic weights by a power of two S;
+   the model run on (S*lam, S*w) -- iasls: (S^2*lam, S^2*lam_1, S*w) -- denotes S (S^2) times the system of (lam, w) at
+   every pass and for every solver setting, right-hand side included, so the scaled comparison is a comparison of the
+   unscaled rational system. *)
+Theorem C06_asls_homogeneous : forall (hp : bool) (bs : Z) (N : nat) (lam : Z) (d : nat) (wl : list (Z -> Z)) (y : Z -> Z) (S : Z),
+  (1 <= d < N)%nat -> 0 < lam -> 0 < S ->
+  exists cs cs', asls hp bs N lam d wl y = Some cs /\
+    asls hp bs N (S * lam) d (map (fun w i => S * w i) wl) y = Some cs' /\
+    Forall2 (scaled N S) cs cs'.
+Proof. exact asls_homogeneous. Qed.
+Print Assumptions C06_asls_homogeneous.
+
+Theorem C06_iasls_homogeneous : forall (hp : bool) (bs : Z) (N : nat) (lam lam1 : Z) (d : nat) (wl : list (Z -> Z)) (y : Z -> Z) (S : Z),
+  (2 <= d < N)%nat -> 0 < lam -> 0 < S ->
+  exists cs cs', iasls hp bs N lam lam1 d wl y = Some cs /\
+    iasls hp bs N (S * S * lam) (S * S * lam1) d (map (fun w i => S * w i) wl) y = Some cs' /\
+    Forall2 (scaled N (S * S)) cs cs'.
+Proof. exact iasls_homogeneous. Qed.
+Print Assumptions C06_iasls_homogeneous.
 
 (* non-vacuity: concrete instances (pentapy and LAPACK layouts) evaluate to calls that denote the
    documented matrices; the hypotheses of C06_returned_pair are satisfiable and a run converges *)
